@@ -32,6 +32,14 @@ def vc_task(task):
     return res
 
 
+def shared_c04_task(task):
+    """the exposed hands are ranked by the two opening tables, which the engine asks with a GENERATOR of up cards: the tables (order,
+    domain, same answer for a one-shot iterable) are C04's exhaustive tasks, run here too"""
+    import props.c04 as p04
+    from pyvc.runner import relabel
+    return relabel(p04.lookup_task(task), 'C13')
+
+
 def main(argv=None):
     chk = Check('C13', 'proof', argv)
     source(EXTRA)
@@ -39,6 +47,8 @@ def main(argv=None):
     for sh in shapes(chk.tier):
         tasks.append({'module': 'props.c13', 'fn': 'vc_task', 'name': f'_begin_betting/n{sh.n}h{sh.H}', 'shape': sh.as_dict(),
                       'timeout_ms': 300000 if chk.tier == 'thorough' else 30000, 'weight': sh.n * sh.H})
+    for lk in ('_HighHandOpeningLookup', '_LowHandOpeningLookup'):
+        tasks.append({'module': 'props.c13', 'fn': 'shared_c04_task', 'lookup': lk, 'name': f'table/{lk}', 'weight': 5})
     chk.run_tasks(tasks)
     chk.assumptions += [
         'precondition round_can_begin: a street is current, >= 2 players in, exposed cards known and pairwise distinct (C06), rows aligned',
